@@ -1,3 +1,4 @@
 ; variant C: holes excluded for directives; outputs are injected as the PARENT (= root) language
 ((directive (code) @injection.content) (#set! injection.language "stmt"))
 ((output (code) @injection.content) (#set! injection.parent) (#set! injection.include-children))
+((text) @injection.content (#set! injection.language "host") (#set! injection.combined))
